@@ -20,6 +20,10 @@ pub const MAX_VALS: usize = 4096;
 const D0: AtomicU8 = AtomicU8::new(0);
 pub static DROPS: [AtomicU8; MAX_VALS] = [D0; MAX_VALS];
 pub static NEXT_VAL: AtomicUsize = AtomicUsize::new(1);
+#[allow(clippy::declare_interior_mutable_const)]
+const W0: AtomicUsize = AtomicUsize::new(0);
+/// pthread_t of the worker threads of the current history, by harness thread id
+pub static WORKER_PTH: [AtomicUsize; 64] = [W0; 64];
 
 pub struct Val {
     pub id: u64,
@@ -61,9 +65,55 @@ thread_local! {
     pub static LOCAL_SENT: RefCell<Vec<u64>> = const { RefCell::new(Vec::new()) };
 }
 
+#[allow(clippy::declare_interior_mutable_const)]
+const P0: AtomicU64 = AtomicU64::new(0);
+/// per harness thread id: operations completed / operations currently open (nesting depth)
+pub static OPS_COMPLETED: [AtomicU64; 64] = [P0; 64];
+pub static OPS_OPEN: [AtomicU64; 64] = [P0; 64];
+
+#[inline]
+fn op_begin() {
+    OPS_OPEN[(crate::tid() as usize) % 64].fetch_add(1, Ordering::Relaxed);
+}
+
+#[inline]
+fn op_end() {
+    let t = (crate::tid() as usize) % 64;
+    OPS_OPEN[t].fetch_sub(1, Ordering::Relaxed);
+    OPS_COMPLETED[t].fetch_add(1, Ordering::Relaxed);
+}
+
+/// Decides "an operation does not return": the thread has an operation open, completes none and burns CPU
+/// (thread CPU clock, not wall time) over the observation window. Returns a description if so.
+pub fn spinning_in_op(tid: u32, pth: libc::pthread_t) -> Option<String> {
+    let t = (tid as usize) % 64;
+    let c0 = OPS_COMPLETED[t].load(Ordering::SeqCst);
+    let cpu0 = crate::probe::thread_cpu_ns(pth);
+    if OPS_OPEN[t].load(Ordering::SeqCst) == 0 {
+        return None;
+    }
+    let mut burnt = 0;
+    for _ in 0..40 {
+        std::thread::sleep(std::time::Duration::from_millis(100));
+        if OPS_COMPLETED[t].load(Ordering::SeqCst) != c0 || OPS_OPEN[t].load(Ordering::SeqCst) == 0 {
+            return None;
+        }
+        burnt = crate::probe::thread_cpu_ns(pth).saturating_sub(cpu0);
+        if burnt > 2_000_000_000 {
+            break;
+        }
+    }
+    if burnt > 2_000_000_000 {
+        Some(format!("thread {} has burnt {} ms of CPU inside one channel operation without completing it", tid, burnt / 1_000_000))
+    } else {
+        None
+    }
+}
+
 #[inline]
 pub fn do_send(ch: &Channel<Val>, v: Val) -> u64 {
     let id = v.id;
+    op_begin();
     if LOG.load(Ordering::Relaxed) {
         evlog::log(kind::CALL, OP_SEND, id);
     }
@@ -71,15 +121,18 @@ pub fn do_send(ch: &Channel<Val>, v: Val) -> u64 {
     if LOG.load(Ordering::Relaxed) {
         evlog::log(kind::RET, OP_SEND, id);
     }
+    op_end();
     id
 }
 
 #[inline]
 pub fn do_recv(ch: &Channel<Val>) -> Option<u64> {
+    op_begin();
     if LOG.load(Ordering::Relaxed) {
         evlog::log(kind::CALL, OP_RECV, 0);
     }
     let r = ch.recv();
+    op_end();
     let id = r.as_ref().map(|v| v.id);
     if LOG.load(Ordering::Relaxed) {
         evlog::log(kind::RET, OP_RECV, id.unwrap_or(NONE));
@@ -210,6 +263,7 @@ pub fn run_history(cfg: &HistCfg) -> HistOut {
         let (done, exit_ok) = (done.clone(), exit_ok.clone());
         pj.push(std::thread::spawn(move || {
             crate::set_thread(10 + p as u32, crate::class::PRODUCER);
+            WORKER_PTH[10 + p].store(unsafe { libc::pthread_self() } as usize, Ordering::SeqCst);
             if c.signal != 0 {
                 crate::pool::add_target(0);
             }
@@ -237,6 +291,7 @@ pub fn run_history(cfg: &HistCfg) -> HistOut {
         let (done, exit_ok) = (done.clone(), exit_ok.clone());
         cj.push(std::thread::spawn(move || {
             crate::set_thread(30 + c as u32, crate::class::CONSUMER);
+            WORKER_PTH[30 + c].store(unsafe { libc::pthread_self() } as usize, Ordering::SeqCst);
             if cf.signal != 0 {
                 crate::pool::add_target(0);
             }
@@ -277,19 +332,41 @@ pub fn run_history(cfg: &HistCfg) -> HistOut {
         None
     };
     barrier.wait();
-    if let Some(k) = killer {
+    {
         let t0 = crate::now_ms();
         while done.load(Ordering::SeqCst) < (cfg.producers + cfg.consumers) as u64 {
             std::thread::yield_now();
-            if crate::now_ms() - t0 > 30_000 {
-                out.problems.push("WATCHDOG workers did not finish under signal fire".to_string());
-                break;
+            if crate::now_ms() - t0 > 10_000 {
+                // who is stuck? a thread burning CPU inside one operation that never completes is the verdict
+                let mut verdict = None;
+                for t in (10..10 + cfg.producers as u32).chain(30..30 + cfg.consumers as u32) {
+                    let pth = WORKER_PTH[(t as usize) % 64].load(Ordering::SeqCst) as libc::pthread_t;
+                    if pth != 0 {
+                        if let Some(m) = spinning_in_op(t, pth) {
+                            verdict = Some(m);
+                            break;
+                        }
+                    }
+                }
+                match verdict {
+                    Some(m) => {
+                        crate::jsonw::emit_violation("C08", "channel-op-does-not-return", &format!("{} (a send in a signal handler that interrupted an operation on the same thread, or with other threads mid-operation)", m));
+                        unsafe { libc::_exit(1) };
+                    }
+                    None => {
+                        out.problems.push("WATCHDOG workers did not finish under signal fire".to_string());
+                        crate::jsonw::emit(&crate::jsonw::J::obj().set("type", crate::jsonw::J::s("inconclusive")).set("reason", crate::jsonw::J::s("channel workers neither finished nor were found spinning inside an operation")));
+                        unsafe { libc::_exit(2) };
+                    }
+                }
             }
         }
+    }
+    if let Some(k) = killer {
         stop_k.store(true, Ordering::SeqCst);
         let _ = k.join();
-        exit_ok.store(true, Ordering::SeqCst);
     }
+    exit_ok.store(true, Ordering::SeqCst);
     for j in pj {
         match j.join() {
             Ok((s, ns, nr)) => {
